@@ -10,6 +10,7 @@ per-constraint and per-variable element views carry the same weights), every ini
 import SgVerif.Lmm.Lemmas
 import SgVerif.Lmm.Termination
 import SgVerif.Lmm.FbLemmas
+import SgVerif.Lmm.Eps
 namespace SgVerif.C15
 open SgVerif.Lmm
 
@@ -290,7 +291,7 @@ Full-strength statement planned in DESIGN §8 — FALSE on the current code:
 some of its consumers are not fixed yet; these consumers are then only limited by their *other* constraints, and the
 load of the dropped constraint is bounded by no function of `eps` and its own data.  `maxmin_feasible_eps_counterexample`
 below; replayed on the real library (corpus case `epsA`, finding `maxmin-precision-drops-constraint`).
-What does hold for every `eps ≥ 0` is in Lmm/Eps.lean (`maxmin_var_bounds_eps`, when present) and, at `eps = 0`,
+What does hold for every `0 ≤ eps < 1` is `maxmin_var_bounds_eps_partial` below (rates in [0, bound]); at `eps = 0`,
 `maxmin_feasible`.
 -/
 
@@ -412,6 +413,34 @@ theorem maxmin_var_bounds_eps_counterexample :
 
 example : (maxminSolve negSys 0 4 (fun _ => 0)).map (fun st => (st.value 0, st.value 1)) = some (1 / 4, 3 / 4) := by
   decide +kernel
+
+/-- **`maxmin_var_bounds_eps_partial`: what survives at a positive precision.**  For every precision `0 ≤ eps < 1` and
+every well-formed system (SHARED, FATPIPE, variable bounds) in which no variable *without* bound can pass the
+`double_equals` test of the bound round — `hnb`: `eps ≤ -(bound_·penalty)` for the variables with `bound_ ≤ 0`, i.e.
+`eps ≤ penalty` for the API's `bound_ = -1`; exactly the case excluded by `maxmin_var_bounds_eps_counterexample`, and no
+longer needed once props/C15/proposed_fix.diff is applied — every rate `maxmin_solve` returns is in [0, bound].
+(Invariant `PInv`, Lmm/Eps.lean: the light table only holds active constraints with remaining_ > 0 and usage_ > 0, so
+min_usage > 0.)  The capacity clause has no such version: `maxmin_feasible_eps_counterexample`. -/
+theorem maxmin_var_bounds_eps_partial (S : Sys) (hwf : WF S) (eps : Rat) (h0 : 0 ≤ eps) (h1 : eps < 1)
+    (hnb : ∀ v, 0 < (S.var v).penalty → (S.var v).bound ≤ 0 → eps ≤ -((S.var v).bound * (S.var v).penalty))
+    (val0 : Nat → Rat) (fuel : Nat) (st : St) (h : maxminSolve S eps fuel val0 = some st) :
+    ∀ c ∈ S.active, ∀ e ∈ (S.cnst c).elems,
+      0 ≤ st.value e.1 ∧ (0 < (S.var e.1).bound → st.value e.1 ≤ (S.var e.1).bound) :=
+  maxmin_var_bounds_eps_wf S hwf eps h0 h1 hnb val0 fuel st h
+
+/-- non-vacuity at the default precision: `exSys` (penalties 1, 1, 2) meets `hnb`, and the solver returns -/
+example : (∀ v, 0 < (exSys.var v).penalty → (exSys.var v).bound ≤ 0 →
+      (1 / 100000 : Rat) ≤ -((exSys.var v).bound * (exSys.var v).penalty)) ∧
+    (maxminSolve exSys (1 / 100000) 4 (fun _ => 0)).isSome = true := by
+  refine ⟨?_, by decide +kernel⟩
+  intro v hp hb
+  by_cases h0 : v = 0
+  · subst h0; simp [exSys] at hb; norm_num at hb
+  · by_cases h1 : v = 1
+    · subst h1; simp [exSys]; norm_num
+    · by_cases h2 : v = 2
+      · subst h2; simp [exSys]; norm_num
+      · simp [exSys, h0, h1, h2] at hp
 
 /-! ### BMF: the acceptance predicate implies the property (Eigen's fixed point is not modelled) -/
 
